@@ -20,11 +20,12 @@ Codes(j) == { gc \in { q * j.stride + j.offset : q \in 0..(NumDigraphCodes(j.n) 
 Init == \E p \in DOMAIN Plan : \E gc \in Codes(Plan[p]) :
           LET n == Plan[p].n
               graph == DigraphOfCode(n, gc) IN
-          /\ \/ ImplInit(graph, "toposort", 1..n)
-             \/ \E S \in SUBSET (1..n) : ImplInit(graph, "getcycle", S)
+          /\ \E nb \in {"written", "repaired"} :
+               \/ ImplInit(graph, "toposort", 1..n, nb)
+               \/ \E S \in SUBSET (1..n) : ImplInit(graph, "getcycle", S, nb)
           /\ out = ""
 
-Export == ToJson([n |-> Len(g), deps |-> g, fn |-> fn, keys |-> start, o |-> result])
+Export == ToJson([n |-> Len(g), deps |-> g, fn |-> fn, keys |-> start, nb |-> numbering, o |-> result])
 
 Next == \/ (Outer \/ Inner) /\ out' = IF pc' = "done" THEN Export' ELSE ""
         \/ pc = "done" /\ UNCHANGED vars
